@@ -722,9 +722,13 @@ def run_write_failure(spec, acc):
                 # opened meanwhile
                 if len(sim.conns) > 1 and sim.client.state.name == "CONNECTED" and m_next is not None:
                     box[40] = box_next
-                    await sim.call("send", m_next)
-                    await asyncio.sleep(1.0)
-                    sim.next_sent = True
+                    t2_ = sim.spawn("send", m_next)
+                    await asyncio.wait([t2_], timeout=60.0)
+                    if t2_.done():
+                        await asyncio.sleep(1.0)
+                        sim.next_sent = True
+                    else:
+                        sim.next_send_hung = True          # (a send() that never returns: reported below)
                 await sim.close_guarded()
             sim, stats = simgw.run_session(kind, scenario, status_cb=scb_)
             if box_cut is not None:
@@ -745,6 +749,9 @@ def run_write_failure(spec, acc):
                     acc.violation("receiver-reassembles-a-message-nobody-sent", f"{kind}: write failure at packet {i}, reconnect, next message: a receiver that saw both links "
                                   f"reassembles {[p_.hex()[:24] for p_ in got_payloads]} (sent: cut message {box_cut.hex()[:24]}.., next message {bytes(box_next).hex()[:24]}..)",
                                   {"client": kind, "failing_packet": i})
+            if not stats["error"] and getattr(sim, "next_send_hung", False):
+                acc.violation("send-never-returns-after-write-failure", f"{kind}: after a write failure at packet {i} and the reconnection, the next send() had not returned 60 virtual s "
+                              f"later (status callback: {scb_})", {"client": kind, "failing_packet": i, "status_callback": scb_, "status": sim.status})
             if not stats["error"] and not getattr(sim, "send_returned", True):
                 acc.violation("send-never-returns-after-write-failure", f"{kind}: send() whose write failed at packet {i} had not returned 60 virtual s later (status callback: {scb_})",
                               {"client": kind, "failing_packet": i, "status_callback": scb_, "status": sim.status})
